@@ -82,6 +82,17 @@ fn no_panic(tables: &Tables, text: &str, lines: &[String], layer: &str) -> (Vec<
     let mut errs = 0;
     let mut n = 0;
     let is_agg = engine.is_aggregate();
+    if is_agg && lines.iter().all(|l| l == "zzz") {
+        // the result over an input without rows
+        for l in lines {
+            let _ = catch(|| engine.execute(l.clone(), &cfg));
+        }
+        n += 1;
+        if let Err(p) = catch(|| engine.execute(String::new(), &ExecutionConfig::aggregate_result())) {
+            out.push(fail(panic_signature(&p), format!("`{}` result over an input without rows panicked: {}", text, p.msg), json!({"layer": layer, "statement": text, "line": "zzz"}), json!("result or error"), json!({"panic": p.msg, "at": format!("{}:{}", p.file, p.line)}), 0));
+        }
+        return (out, n, errs);
+    }
     for l in lines {
         n += 1;
         let r = catch(|| engine.execute(l.clone(), &cfg));
@@ -575,6 +586,21 @@ fn parts_layer(col: &Collector) {
             }
         }
     }
+    // the month may be a name: short, empty-looking and multi-byte texts in that position
+    for month in ["Ju", "J", "ju", "août", "é", "éé", "日本語", "sept", "Sept.", "September", "dec", "DEC", "Marz", "ma\u{301}r"] {
+        for parts in [2usize, 3, 7] {
+            let refs: Vec<String> = (1..=parts).map(|g| format!("p[{}]", g)).collect();
+            let def = format!("CREATE TABLE x(p = '^{}$', {} => c TIMESTAMP, 'm=(m)' => m TEXT DEFAULT 'm');", vec!["(\\\\S+)"; parts].join(" "), refs.join(", "));
+            let mut l: Vec<&str> = base[..parts].to_vec();
+            l[1] = month;
+            n += 1;
+            col.eval(1);
+            col.nontrivial(h64(&("T-month", month, parts)));
+            for f in extract_case(&def, &l.join(" "), false) {
+                col.fail(f);
+            }
+        }
+    }
     let adef = "CREATE TABLE x(p = '^(\\\\S+) (\\\\S+)$', p[1], p[2] => c INT[], 'm=(m)' => m TEXT DEFAULT 'm');";
     for t in toks {
         n += 1;
@@ -614,9 +640,12 @@ fn agg_forms_layer(col: &Collector, tables: &Tables) {
     for name in AGG_NAMES {
         for args in AGG_ARGS {
             let call = format!("{}({})", name, args);
-            for text in [format!("SELECT {} FROM t", call), format!("SELECT t, {} FROM t GROUP BY t", call), format!("SELECT t, COUNT(*) FROM t GROUP BY t HAVING {} > 0", call), format!("SELECT {} + 1, COUNT(*) FROM t", call)] {
+            for text in [format!("SELECT {} FROM t", call), format!("SELECT t, {} FROM t", call), format!("SELECT t, {} FROM t GROUP BY t", call), format!("SELECT t, COUNT(*) FROM t GROUP BY t HAVING {} > 0", call), format!("SELECT {} + 1, COUNT(*) FROM t", call)] {
                 let mut seqs: Vec<Vec<String>> = lines.iter().map(|l| vec![l.clone()]).collect();
                 seqs.push(lines.clone());
+                // no line at all / only a line that is no row
+                seqs.push(vec![]);
+                seqs.push(vec!["zzz".into()]);
                 for seq in seqs {
                     let (fs, evals, errs) = no_panic(tables, &text, &seq, "G");
                     n += 1;
